@@ -271,7 +271,7 @@ impl SenderLink {
             &&& final(writer).sent@.len() >= old(writer).sent@.len()
             &&& final(writer).sent@.take(old(writer).sent@.len() as int) =~= old(writer).sent@
             &&& (forall|i: int| 0 <= i < new.len() ==> (#[trigger] new[i]) is Transfer && new[i]->Transfer_input_handle == self.input_handle->Some_0)   // [C11.link.same-handle] every frame of the delivery goes to the link's own handle
-            &&& frames_of(new) =~= link_expected(self.max_message_size as int, transfer, payload@)   // [C01.link.split-exact] the frames queued are exactly those of link_expected: payload chunks in order, more on all but the last [C11.link.tag-first-frame-only] and exactly the first frame carries the delivery-tag [C16.send.one-frame-when-it-fits] in particular a message that fits the link's max-message-size (or any message when there is none) is queued as ONE item, so no cancellation point lies inside it
+            &&& frames_of(new) =~= link_expected(self.max_message_size as int, transfer, payload@)   // [C18.link.state-on-every-frame] (`cleared` keeps the delivery state: EVERY frame of a split transactional post carries the transactional state with its txn-id -- the resource withholds only frames that do) [C01.link.split-exact] the frames queued are exactly those of link_expected: payload chunks in order, more on all but the last [C11.link.tag-first-frame-only] and exactly the first frame carries the delivery-tag [C16.send.one-frame-when-it-fits] in particular a message that fits the link's max-message-size (or any message when there is none) is queued as ONE item, so no cancellation point lies inside it
         }),
         r is Ok ==> r->Ok_0 == (if transfer.settled is Some { transfer.settled->Some_0 } else { self.snd_settle_mode is Settled }),   // [C02.link.settled-flag] pre-settled iff the transfer says so, else iff snd-settle-mode is settled
 //@@ entry
